@@ -133,7 +133,7 @@ theorem qGetConfig_lookup (s : QSpec) (q : QObj) (k : String) :
 
 /-- the reloaded quantizer: emitted arguments keep their value, dropped ones get the default -/
 def qReloaded (s : QSpec) (q : QObj) : QObj :=
-  ⟨s.name, s.params.map fun p => (p.1, if p.1 ∈ s.emits then qAttr s q p.1 else p.2)⟩
+  ⟨s.name, s.params.map fun p => (p.1, if p.1 ∈ s.emits then qAttr s q p.1 else p.2), []⟩
 
 theorem qFromConfig_getConfig (s : QSpec) (q : QObj) (hc : s.Closed) :
     qFromConfig s (qGetConfig s q) = .ok (qReloaded s q) := by
@@ -168,6 +168,9 @@ structure QSerializable (s : QSpec) (q : QObj) : Prop where
   keys : q.args.map Prod.fst = s.params.map Prod.fst
   nodup : (s.params.map Prod.fst).Nodup
   dropped : ∀ p ∈ s.params, p.1 ∉ s.emits → q.args.lookup p.1 = some p.2
+  /-- every argument is a numpy value where the class calls numpy methods on it (what `from_config`
+      produces; a plain Python list / float for `post_training_scale` is outside) -/
+  numpy : q.native = []
 
 theorem zip_keys_eq {β : Type} (a b : List (String × β)) (hk : a.map Prod.fst = b.map Prod.fst)
     (hv : ∀ k, k ∈ a.map Prod.fst → a.lookup k = b.lookup k) (hnd : (a.map Prod.fst).Nodup) :
@@ -199,9 +202,11 @@ theorem zip_keys_eq {β : Type} (a b : List (String × β)) (hk : a.map Prod.fst
       simpa [List.lookup_cons, hne] using this
 
 theorem qReloaded_eq_self (s : QSpec) (q : QObj) (h : QSerializable s q) : qReloaded s q = q := by
-  obtain ⟨c, a⟩ := q
+  obtain ⟨c, a, nat⟩ := q
   have hc : c = s.name := h.cls
   subst hc
+  have hn : nat = [] := h.numpy
+  subst hn
   unfold qReloaded
   congr 1
   symm
@@ -212,7 +217,7 @@ theorem qReloaded_eq_self (s : QSpec) (q : QObj) (h : QSerializable s q) : qRelo
     have hk' : k ∈ s.params.map Prod.fst := h.keys ▸ hk
     obtain ⟨p, hp, rfl⟩ := List.mem_map.mp hk'
     have hl := lookup_map_some s.params Prod.fst
-      (fun p => if p.1 ∈ s.emits then qAttr s ⟨s.name, a⟩ p.1 else p.2) p hp h.nodup
+      (fun p => if p.1 ∈ s.emits then qAttr s ⟨s.name, a, []⟩ p.1 else p.2) p hp h.nodup
     rw [hl]
     by_cases he : p.1 ∈ s.emits
     · simp only [he, if_true]
@@ -543,15 +548,17 @@ inductive NodeOK (E : Env) : Node → Prop where
   | q (l : Layer) (spec : LSpec) (hf : E.findL l.cls = some spec)
       (ht : E.customObjects.contains l.cls = true) (hb : (l.cls == "QBidirectional") = false)
       (hok : LayerOK E spec l) : NodeOK E (.q l)
-  | keras (c : String) (cfg : Cfg) (h : E.isLibraryClass c = false) : NodeOK E (.keras c cfg)
+  | keras (c : String) (cfg : Cfg) (h : E.isLibraryClass c = false)
+      -- no identifier string of the stock layer's config is a key of the custom-object table
+      (hs : kerasNodeCfg E cfg = cfg) : NodeOK E (.keras c cfg)
 
 theorem node_roundtrip (E : Env) (n : Node) (h : NodeOK E n) :
     ∃ n', nodeFromConfig E ⟨(nodeGetConfig E n).1, (nodeGetConfig E n).2, []⟩ = .ok n' ∧
       nodeView E n' = nodeView E n := by
   cases h with
-  | keras c cfg h =>
+  | keras c cfg h hs =>
     refine ⟨.keras c cfg, ?_, rfl⟩
-    simp [nodeFromConfig, nodeGetConfig, h]
+    simp [nodeFromConfig, nodeGetConfig, h, hs]
   | q l spec hf ht hb hok =>
     obtain ⟨L', hL', hcls, hkw, hread⟩ := layer_roundtrip E spec l hok
     refine ⟨.q L', ?_, ?_⟩
@@ -576,5 +583,406 @@ theorem model_roundtrip (E : Env) (m : Model) (h : ∀ n ∈ m, NodeOK E n.node)
         intro ib; rfl
       rw [this, hn']
     simp only [collectNodes, hn2, ht']
+
+/-! ### the QConv2D mask: `np.reshape(mask, (h, w, 1, 1))` ∘ `tolist()` for every kernel shape -/
+
+theorem leaves_of_scalar (v : PyVal) (h : v.isScalar = true) : PyVal.leaves v = [v] := by
+  cases v <;> simp_all [PyVal.isScalar, PyVal.leaves]
+
+theorem leavesL_map {α : Type} (l : List α) (g : α → PyVal) :
+    PyVal.leavesL (l.map g) = l.flatMap (fun x => PyVal.leaves (g x)) := by
+  induction l with
+  | nil => simp [PyVal.leavesL]
+  | cons x t ih => simp [PyVal.leavesL, ih]
+
+theorem flatMap_singleton_map {α β : Type} (l : List α) (g : α → β) :
+    l.flatMap (fun x => [g x]) = l.map g := by
+  induction l <;> simp_all
+
+mutual
+/-- `leaves` only returns non-lists -/
+theorem leaves_scalar : ∀ (v : PyVal), ∀ x ∈ PyVal.leaves v, x.isScalar = true
+  | .list l => by
+    intro x hx
+    rw [PyVal.leaves] at hx
+    exact leavesL_scalar l x hx
+  | .none => by intro x hx; simp [PyVal.leaves] at hx; subst hx; rfl
+  | .bool _ => by intro x hx; simp [PyVal.leaves] at hx; subst hx; rfl
+  | .num _ => by intro x hx; simp [PyVal.leaves] at hx; subst hx; rfl
+  | .str _ => by intro x hx; simp [PyVal.leaves] at hx; subst hx; rfl
+  | .dict _ => by intro x hx; simp [PyVal.leaves] at hx; subst hx; rfl
+theorem leavesL_scalar : ∀ (l : List PyVal), ∀ x ∈ PyVal.leavesL l, x.isScalar = true
+  | [] => by intro x hx; simp [PyVal.leavesL] at hx
+  | y :: ys => by
+    intro x hx
+    rw [PyVal.leavesL, List.mem_append] at hx
+    rcases hx with h | h
+    · exact leaves_scalar y x h
+    · exact leavesL_scalar ys x h
+end
+
+theorem getD_of_lt {α : Type} (l : List α) (d : α) (k : Nat) (hk : k < l.length) :
+    l.getD k d = l[k] := by
+  simp [List.getD_eq_getElem?_getD, List.getElem?_eq_getElem hk]
+
+theorem getD_of_ge {α : Type} (l : List α) (d : α) (k : Nat) (hk : l.length ≤ k) :
+    l.getD k d = d := by
+  simp [List.getD_eq_getElem?_getD, List.getElem?_eq_none hk]
+
+theorem getD_append_lt {α : Type} (l l' : List α) (d : α) (k : Nat) (hk : k < l.length) :
+    (l ++ l').getD k d = l.getD k d := by
+  simp [List.getD_eq_getElem?_getD, List.getElem?_append_left hk]
+
+theorem getD_append_ge {α : Type} (l l' : List α) (d : α) (k : Nat) (hk : l.length ≤ k) :
+    (l ++ l').getD k d = l'.getD (k - l.length) d := by
+  simp [List.getD_eq_getElem?_getD, List.getElem?_append_right hk]
+
+theorem getD_scalar (xs : List PyVal) (hx : ∀ x ∈ xs, x.isScalar = true) (k : Nat) :
+    (xs.getD k .none).isScalar = true := by
+  by_cases hk : k < xs.length
+  · rw [getD_of_lt _ _ _ hk]
+    exact hx _ (List.getElem_mem hk)
+  · rw [getD_of_ge _ _ _ (by omega)]
+    rfl
+
+theorem flatMap_range_length {α : Type} (G : Nat → List α) (w h : Nat) (hG : ∀ i, (G i).length = w) :
+    ((List.range h).flatMap G).length = h * w := by
+  induction h with
+  | zero => simp
+  | succ n ih =>
+    rw [List.range_succ, List.flatMap_append, List.length_append, ih]
+    simp [hG]
+    ring
+
+/-- row-major indexing of `h` concatenated rows of length `w` -/
+theorem flatMap_range_getD {α : Type} (G : Nat → List α) (w h : Nat) (hG : ∀ i, (G i).length = w)
+    (d : α) (i j : Nat) (hi : i < h) (hj : j < w) :
+    ((List.range h).flatMap G).getD (i * w + j) d = (G i).getD j d := by
+  induction h with
+  | zero => omega
+  | succ n ih =>
+    rw [List.range_succ, List.flatMap_append]
+    have hlen := flatMap_range_length G w n hG
+    by_cases hin : i < n
+    · have hlt : i * w + j < ((List.range n).flatMap G).length := by
+        rw [hlen]
+        calc i * w + j < i * w + w := by omega
+          _ = (i + 1) * w := by ring
+          _ ≤ n * w := Nat.mul_le_mul_right w hin
+      rw [getD_append_lt _ _ _ _ hlt]
+      exact ih hin
+    · have hieq : i = n := by omega
+      subst hieq
+      have hle : ((List.range i).flatMap G).length ≤ i * w + j := by rw [hlen]; omega
+      rw [getD_append_ge _ _ _ _ hle, hlen]
+      simp
+
+theorem mask4_congr (h w : Nat) (f g : Nat → Nat → PyVal)
+    (hfg : ∀ i, i < h → ∀ j, j < w → f i j = g i j) : mask4 h w f = mask4 h w g := by
+  unfold mask4
+  congr 1
+  apply List.map_congr_left
+  intro i hi
+  congr 1
+  apply List.map_congr_left
+  intro j hj
+  rw [hfg i (List.mem_range.mp hi) j (List.mem_range.mp hj)]
+
+theorem leaves_mask4 (h w : Nat) (f : Nat → Nat → PyVal) (hs : ∀ i j, (f i j).isScalar = true) :
+    PyVal.leaves (mask4 h w f) = (List.range h).flatMap fun i => (List.range w).map (f i) := by
+  unfold mask4
+  rw [PyVal.leaves, leavesL_map]
+  congr 1
+  funext i
+  rw [PyVal.leaves, leavesL_map]
+  have : ∀ j, PyVal.leaves (.list [.list [f i j]]) = [f i j] := by
+    intro j
+    simp [PyVal.leaves, PyVal.leavesL, leaves_of_scalar _ (hs i j)]
+  simp only [this]
+  exact flatMap_singleton_map _ _
+
+theorem leaves_mask2 (h w : Nat) (f : Nat → Nat → PyVal) (hs : ∀ i j, (f i j).isScalar = true) :
+    PyVal.leaves (mask2 h w f) = (List.range h).flatMap fun i => (List.range w).map (f i) := by
+  unfold mask2
+  rw [PyVal.leaves, leavesL_map]
+  congr 1
+  funext i
+  rw [PyVal.leaves, leavesL_map]
+  have : ∀ j, PyVal.leaves (f i j) = [f i j] := fun j => leaves_of_scalar _ (hs i j)
+  simp only [this]
+  exact flatMap_singleton_map _ _
+
+/-- `reshapeMask` on a list whose first row is a list, in closed form -/
+theorem reshapeMask_rows (rows r0 t : List PyVal) (hr : rows = .list r0 :: t) :
+    reshapeMask (.list rows) =
+      if r0.length ≠ 0 ∧ (PyVal.leaves (.list rows)).length = rows.length * r0.length then
+        .ok (mask4 rows.length r0.length fun i j =>
+          (PyVal.leaves (.list rows)).getD (i * r0.length + j) .none)
+      else .error .valueError := by
+  subst hr
+  rfl
+
+/-- any array literal with `h·w` scalar entries whose first two dimensions are `h ≥ 1`, `w ≥ 1`
+    and whose entry (i, j) is `f i j` is reshaped to `mask4 h w f` -/
+theorem reshapeMask_of_leaves (rows r0 t : List PyVal) (hr : rows = .list r0 :: t) (h w : Nat)
+    (f : Nat → Nat → PyVal) (hh : rows.length = h) (hw : r0.length = w) (hw0 : 0 < w)
+    (hl : PyVal.leaves (.list rows) = (List.range h).flatMap fun i => (List.range w).map (f i)) :
+    reshapeMask (.list rows) = .ok (mask4 h w f) := by
+  have hG : ∀ i, ((List.range w).map (f i)).length = w := by intro i; simp
+  rw [reshapeMask_rows rows r0 t hr, hl, hh, hw, flatMap_range_length _ w h hG]
+  rw [if_pos ⟨by omega, rfl⟩]
+  congr 1
+  apply mask4_congr
+  intro i hi j hj
+  rw [flatMap_range_getD _ w h hG _ i j hi hj, getD_of_lt _ _ _ (by simpa using hj)]
+  simp
+
+/-- get_config → from_config → constructor: the stored (h, w, 1, 1) mask is read back unchanged,
+    for EVERY kernel height and width (unit dimensions included) -/
+theorem reshapeMask_mask4 (h w : Nat) (f : Nat → Nat → PyVal) (hh : 0 < h) (hw : 0 < w)
+    (hs : ∀ i j, (f i j).isScalar = true) : reshapeMask (mask4 h w f) = .ok (mask4 h w f) := by
+  obtain ⟨n, rfl⟩ : ∃ n, h = n + 1 := ⟨h - 1, by omega⟩
+  have hl := leaves_mask4 (n + 1) w f hs
+  unfold mask4 at hl ⊢
+  refine reshapeMask_of_leaves _ ((List.range w).map fun j => .list [.list [f 0 j]])
+    ((List.range n).map fun i => .list ((List.range w).map fun j => .list [.list [f (i + 1) j]]))
+    ?_ (n + 1) w f (by simp) (by simp) hw hl
+  simp [List.range_succ_eq_map, Function.comp_def]
+
+/-- the constructor on the (h, w) array a user passes: stored as `mask4 h w f` -/
+theorem reshapeMask_mask2 (h w : Nat) (f : Nat → Nat → PyVal) (hh : 0 < h) (hw : 0 < w)
+    (hs : ∀ i j, (f i j).isScalar = true) : reshapeMask (mask2 h w f) = .ok (mask4 h w f) := by
+  obtain ⟨n, rfl⟩ : ∃ n, h = n + 1 := ⟨h - 1, by omega⟩
+  have hl := leaves_mask2 (n + 1) w f hs
+  unfold mask2 at hl ⊢
+  refine reshapeMask_of_leaves _ ((List.range w).map fun j => f 0 j)
+    ((List.range n).map fun i => .list ((List.range w).map fun j => f (i + 1) j))
+    ?_ (n + 1) w f (by simp) (by simp) hw hl
+  simp [List.range_succ_eq_map, Function.comp_def]
+
+/-- whatever the constructor accepted, what it stored is a fixed point of the constructor -/
+theorem reshapeMask_idem (v m : PyVal) (h : reshapeMask v = .ok m) : reshapeMask m = .ok m := by
+  cases v with
+  | none => simp [reshapeMask] at h; subst h; rfl
+  | list rows =>
+    cases rows with
+    | nil => simp [reshapeMask] at h
+    | cons r t =>
+      cases r with
+      | list r0 =>
+        rw [reshapeMask_rows _ r0 t rfl] at h
+        split at h
+        · rename_i hc
+          injection h with h
+          subst h
+          apply reshapeMask_mask4
+          · simp
+          · omega
+          · intro i j
+            exact getD_scalar _ (leaves_scalar _) _
+        · cases h
+      | none => simp [reshapeMask] at h
+      | bool _ => simp [reshapeMask] at h
+      | num _ => simp [reshapeMask] at h
+      | str _ => simp [reshapeMask] at h
+      | dict _ => simp [reshapeMask] at h
+  | bool _ => simp [reshapeMask] at h
+  | num _ => simp [reshapeMask] at h
+  | str _ => simp [reshapeMask] at h
+  | dict _ => simp [reshapeMask] at h
+
+/-- a literal of rank < 2 (a scalar, or a list whose first element is not a list) is rejected by
+    the constructor ("Expected shape to have rank at least 2") — what a writer that loses an axis
+    of a (1, w, 1, 1) / (h, 1, 1, 1) / (1, 1, 1, 1) mask produces -/
+theorem reshapeMask_rank_lt_2 (v : PyVal) (hv : v.isScalar = true) (t : List PyVal) :
+    (v ≠ .none → reshapeMask v = .error .valueError) ∧
+      reshapeMask (.list (v :: t)) = .error .valueError := by
+  cases v <;> simp_all [reshapeMask, PyVal.isScalar]
+
+/-! ### `get_config` raising: numpy methods on plain Python values -/
+
+theorem qGetConfigRaises_of_numpy (s : QSpec) (q : QObj) (h : q.native = []) :
+    qGetConfigRaises s q = false := by
+  unfold qGetConfigRaises
+  rw [h]
+  simp
+
+/-- every quantizer object reachable from the argument holds numpy values where the class calls
+    numpy methods -/
+def QVal.numpy : QVal → Bool
+  | .obj q => q.native.isEmpty
+  | _ => true
+
+def Arg.numpy : Arg → Bool
+  | .q v => v.numpy
+  | .act (.obj o) => o.native.isEmpty
+  | .init (.qinit _ _ v) => v.numpy
+  | _ => true
+
+theorem QVal.getConfigRaises_of_numpy (E : Env) (v : QVal) (h : v.numpy = true) :
+    v.getConfigRaises E = false := by
+  cases v with
+  | none => rfl
+  | str _ => rfl
+  | obj q =>
+    have hn : q.native = [] := by simpa [QVal.numpy] using h
+    simp only [QVal.getConfigRaises]
+    split
+    · exact qGetConfigRaises_of_numpy _ _ hn
+    · rfl
+
+theorem argGetConfigRaises_of_numpy (E : Env) (k : Kind) (a : Arg) (h : a.numpy = true) :
+    argGetConfigRaises E k a = false := by
+  cases k <;> cases a <;> try rfl
+  case quant.q t v => exact QVal.getConfigRaises_of_numpy E v (by simpa [Arg.numpy] using h)
+  case act.act x =>
+    cases x <;> try rfl
+    case obj q => exact QVal.getConfigRaises_of_numpy E (.obj q) (by simpa [Arg.numpy, QVal.numpy] using h)
+  case rawAct.act x =>
+    cases x <;> try rfl
+    case obj q => exact QVal.getConfigRaises_of_numpy E (.obj q) (by simpa [Arg.numpy, QVal.numpy] using h)
+  case init.init qs c r i =>
+    cases i <;> try rfl
+    case qinit a b v => exact QVal.getConfigRaises_of_numpy E v (by simpa [Arg.numpy] using h)
+
+theorem layerGetConfigRaises_of_numpy (E : Env) (spec : LSpec) (L : Layer)
+    (h : ∀ p ∈ spec.params, (L.arg p.name).numpy = true) : layerGetConfigRaises E spec L = false := by
+  unfold layerGetConfigRaises
+  rw [List.any_eq_false]
+  intro p hp
+  have hp' := (List.mem_filter.mp hp).1
+  simp [argGetConfigRaises_of_numpy E p.kind _ (h p hp')]
+
+theorem rebuild_of_no_raise (E : Env) (m : Model) (h : modelGetConfigRaises E m = false) :
+    rebuild E m = modelFromConfig E (modelGetConfig E m) := by
+  unfold rebuild
+  simp [h]
+
+theorem rebuild_of_raise (E : Env) (m : Model) (h : modelGetConfigRaises E m = true) :
+    rebuild E m = .error .attributeError := by
+  unfold rebuild
+  simp [h]
+
+/-! ### stock Keras layers inside the custom-object scope -/
+
+theorem resolveName_id (E : Env) (v : PyVal)
+    (h : ∀ s, v = .str s → E.customObjects.contains s = false) : resolveName E v = v := by
+  cases v <;> try rfl
+  case str s =>
+    have hh := h s rfl
+    simp only [resolveName, hh, Bool.false_eq_true, if_false]
+
+/-- a stock layer's config keeps its meaning when none of its identifier strings is a table key -/
+theorem kerasNodeCfg_id (E : Env) (cfg : Cfg)
+    (h : ∀ kv ∈ cfg, identifierKeys.contains kv.1 = true →
+      ∀ s, kv.2 = .str s → E.customObjects.contains s = false) : kerasNodeCfg E cfg = cfg := by
+  unfold kerasNodeCfg
+  conv_rhs => rw [← List.map_id cfg]
+  apply List.map_congr_left
+  intro kv hkv
+  by_cases hk : identifierKeys.contains kv.1 = true
+  · rw [if_pos hk, resolveName_id E kv.2 (h kv hkv hk)]
+    rfl
+  · rw [if_neg hk]
+    rfl
+
+/-! ### the constructor's normalisation is idempotent -/
+
+theorem lookup_alpha_map (l : Cfg) (t : Nat) (v : PyVal) (h : l.lookup "alpha" = some v) :
+    (l.map fun kv =>
+      if kv.1 == "alpha" then (kv.1, PyVal.str "auto_po2")
+      else if t == 2 && kv.1 == "symmetric" then (kv.1, PyVal.bool true)
+      else kv).lookup "alpha" = some (.str "auto_po2") := by
+  induction l with
+  | nil => simp at h
+  | cons x xs ih =>
+    obtain ⟨k, w⟩ := x
+    by_cases hk : k = "alpha"
+    · subst hk
+      simp [List.lookup_cons]
+    · have hne : ("alpha" == k) = false := by simpa using fun e => hk e.symm
+      have hne' : (k == "alpha") = false := by simpa using hk
+      simp only [List.lookup_cons, hne] at h
+      simp only [List.map_cons, hne']
+      by_cases hs : (t == 2 && k == "symmetric") = true
+      · simp only [hs, if_true, List.lookup_cons, hne, Bool.false_eq_true, if_false]
+        exact ih h
+      · simp only [hs, Bool.false_eq_true, if_false, List.lookup_cons, hne]
+        exact ih h
+
+/-- `_set_trainable_parameter()` twice = once (alpha None → 'auto_po2' is a one-way switch) -/
+theorem setTrainable_idem (s : QSpec) (q : QObj) :
+    setTrainable s (setTrainable s q) = setTrainable s q := by
+  cases ht : s.trainable with
+  | zero => simp [setTrainable, ht]
+  | succ n =>
+    cases hl : q.args.lookup "alpha" with
+    | none => simp [setTrainable, ht, hl]
+    | some v =>
+      cases v with
+      | none =>
+        have h1 : setTrainable s q = ⟨q.cls, q.args.map (fun kv =>
+            if kv.1 == "alpha" then (kv.1, PyVal.str "auto_po2")
+            else if (n + 1) == 2 && kv.1 == "symmetric" then (kv.1, PyVal.bool true)
+            else kv), q.native⟩ := by
+          simp only [setTrainable, ht, hl]
+        rw [h1]
+        have h2 := lookup_alpha_map q.args (n + 1) _ hl
+        simp only [setTrainable, ht, h2]
+      | bool _ => simp [setTrainable, ht, hl]
+      | num _ => simp [setTrainable, ht, hl]
+      | str _ => simp [setTrainable, ht, hl]
+      | list _ => simp [setTrainable, ht, hl]
+      | dict _ => simp [setTrainable, ht, hl]
+
+theorem setTrainable_cls (s : QSpec) (q : QObj) : (setTrainable s q).cls = q.cls := by
+  unfold setTrainable
+  split <;> rfl
+
+theorem normQ_idem (E : Env) (t : Bool) (a : Arg) : normQ E t (normQ E t a) = normQ E t a := by
+  cases a with
+  | q v =>
+    cases v with
+    | obj q =>
+      cases t with
+      | false => simp [normQ]
+      | true =>
+        cases hf : E.findQ q.cls with
+        | none => simp [normQ, hf]
+        | some s =>
+          have h1 : normQ E true (.q (.obj q)) = .q (.obj (setTrainable s q)) := by simp [normQ, hf]
+          rw [h1]
+          simp [normQ, setTrainable_cls, hf, setTrainable_idem]
+    | none => rfl
+    | str _ => rfl
+  | lit _ => rfl
+  | act _ => rfl
+  | constr _ => rfl
+  | init _ => rfl
+
+/-- what the constructor does to an argument by itself, done twice = once: the `normal` hypothesis
+    of `LayerOK` holds for every argument that a constructor produced -/
+theorem normLocal_idem (E : Env) (spec : LSpec) (k : Kind) (a : Arg) :
+    normLocal E spec k (normLocal E spec k a) = normLocal E spec k a := by
+  cases k with
+  | fixed v => simp [normLocal]
+  | quant t => simp only [normLocal]; exact normQ_idem E t a
+  | act =>
+    cases a with
+    | act x =>
+      cases x with
+      | none => by_cases h : spec.noneIsLinear = true <;> simp [normLocal, h]
+      | fn _ => rfl
+      | obj _ => rfl
+      | raw _ => rfl
+    | lit _ => rfl
+    | q _ => rfl
+    | constr _ => rfl
+    | init _ => rfl
+  | lit => cases a <;> rfl
+  | rawAct => cases a <;> rfl
+  | mask => cases a <;> rfl
+  | constr _ _ => cases a <;> rfl
+  | init _ _ _ => cases a <;> rfl
 
 end QKV.LC
